@@ -59,6 +59,12 @@ def body_src(body, ind="    ") -> list[str]:
             out += [f"{ind}with open(str(c)) as fh:"] + sub(0)
         elif k == "match":
             out += [f"{ind}match c:", f"{ind}    case 1:"] + body_src(b[0], ind + "        ") + [f"{ind}    case _:"] + body_src(b[1], ind + "        ")
+        elif k == "nesteddef":
+            out += [f"{ind}def inner_h():"] + sub(0) + [f"{ind}inner_h()"]
+        elif k == "nestedclass":
+            out += [f"{ind}class InnerK:", f"{ind}    def m(self):"] + body_src(b[0], ind + "        ") + [f"{ind}InnerK()"]
+        elif k == "lambda":
+            out += [f"{ind}f_h = lambda: ({LEAF_SRC[b[0][0]['v'] - 1]})  # noqa: E731", f"{ind}f_h()"]
         elif k == "cond":
             out.append(f"{ind}return {LEAF_SRC[b[0][0]['v'] - 1]} if c else {LEAF_SRC[b[1][0]['v'] - 1]}")
         else:
